@@ -18,13 +18,15 @@ LEVEL = ('decides: the DRAT literal sign table of DimacsProof::learned_clause ag
          'BUNDLE (rule ids …K<n>): the kernel rules every verdict depends on — predicate algebra, '
          'nogood watchers, minimisers, conflict-analysis tables, nogood deletion, decision read-back, '
          'no-learning resolver, constraint builders, reified reasons — wherever they are not already '
-         'registered here under another id. Comment state survives chunk boundaries (G12). Only the '
-         'code→literal translation drops the sign of a DIMACS code (G13 = C15-W11). Does not decide '
-         'RUP validity or verdict correctness')
+         'registered here under another id. Comment state survives chunk boundaries (G12). No iterator'
+         ' search over the bytes of the current chunk has its outcome discarded (G14: what it looks '
+         'for may lie in the next chunk). Only the code→literal translation drops the sign of a DIMACS'
+         ' code (G13 = C15-W11). Does not decide RUP validity or verdict correctness')
 TECHNIQUE = "static analysis: symbolic table recovery, who-may-mutate and must-pass rules over rustc MIR"
 
 SELECTING = {"filter", "filter_map", "skip", "take", "step_by", "skip_while", "take_while", "dedup",
              "dedup_by_key", "dedup_by", "retain", "zip", "unique"}
+from ..facts import op_place
 
 
 def g1(led, rid, ctx):
@@ -508,6 +510,66 @@ def g12(led, rid, ctx):
     led.floor(rid, "Comment → StartLine transitions", n, 1)
 
 
+def g14(led, rid, ctx):
+    """CHUNK-CARRIED STATE: the file reaches parse_chunk in fixed-size pieces, so whatever the parser
+    skips ahead to with an iterator search over the current chunk (`find`, `position`, `skip_while`,
+    `nth`, …) may not be in this chunk.  Such a search is admissible only if its outcome is looked at
+    (the not-found case has to store the state to resume in); a search whose result is discarded
+    treats the end of the chunk as the end of what it skips"""
+    import json as _json
+    p = ctx.bin
+    f = None
+    for x in p.fns.values():
+        if x.name == "parse_chunk" and "/parsers/dimacs.rs" in x.file and x.kind != "Closure":
+            f = x
+    if f is None:
+        raise AnchorMissing("DimacsParser::parse_chunk")
+    from ..inline import view as _view
+    f = _view(p, f)
+    heads = n = 0
+    for c in f.calls:
+        tys = []
+        for a in c.args:
+            pl = op_place(a)
+            if pl is not None:
+                tys.append(f.locals[pl["local"]]["ty"])
+        if not any("slice::Iter<" in t and "u8" in t for t in tys):
+            continue
+        if c.name in ("next",):
+            heads += 1
+            continue
+        if c.name in ("by_ref", "into_iter", "clone", "as_slice", "len", "size_hint"):
+            continue
+        n += 1
+        used = False
+        if c.dst is not None:
+            d = c.dst["local"]
+            import re as _re
+            pat = _re.compile(r'"local": %d\b' % d)
+            for b in f.blocks:
+                if b.get("cleanup"):
+                    continue
+                for st in b["stmts"]:
+                    if st["s"] in ("storage_live", "storage_dead", "nop"):
+                        continue
+                    if st["s"] == "assign" and st["dst"]["local"] == d and not st["dst"]["proj"]:
+                        continue
+                    if pat.search(_json.dumps(st)):
+                        used = True
+                t = b["term"]
+                if t is c.term or b["id"] == c.bb or t["t"] == "drop":
+                    continue
+                if pat.search(_json.dumps(t)):
+                    used = True
+        led.check(used, rid, "skip-result-examined:%s" % c.name, c.span,
+                  "the outcome of `%s` over the chunk is tested" % c.name,
+                  "parse_chunk skips ahead with `%s` over the bytes of the current chunk and discards the "
+                  "outcome: when what it looks for lies in the next 8 KiB chunk the parser resumes in "
+                  "the wrong state (the rest of a comment is read as clauses), so the verdict depends on "
+                  "where the chunk boundaries fall" % c.name)
+    led.floor(rid, "loop-head `next` over the chunk", heads, 1)
+
+
 def run(ctx, led):
     run_rule(led, "G1", "DRAT literal sign TABLE (6 rows) and terminating 0", g1, ctx)
     run_rule(led, "G2", "the sink maps every literal, negates exactly the negative codes, forwards all "
@@ -534,6 +596,7 @@ def run(ctx, led):
     run_rule(led, "G11", "a learned clause is deleted only if it is not the reason of a trail entry (shared with C07-J1)", _C07.j1, ctx)
     from . import kernel as _kernel
     _kernel.run_bundle(led, ctx, "G")
+    run_rule(led, "G14", "CHUNK-CARRIED STATE: no iterator search over the current chunk whose outcome is discarded", g14, ctx)
     run_rule(led, "G12", "the Comment state is left only on a line feed seen in the current chunk", g12, ctx)
     from . import kernel as _kernel4
     _kernel4.run_lifecycle(led, ctx, "G")
